@@ -1,5 +1,6 @@
 from typing import TypeVar, cast
 
+import reactivex
 from reactivex import Observable, abc, typing
 from reactivex import operators as ops
 from reactivex.internal import curry_flip
@@ -77,9 +78,13 @@ def map_indexed_(
 
     _mapper_indexed = mapper_indexed or cast(typing.MapperIndexed[_T1, _T2], _identity)
 
-    return source.pipe(
-        ops.zip_with_iterable(infinite()),
-        ops.starmap_indexed(_mapper_indexed),  # type: ignore
+    # The index generator is one-shot: build the pipeline per subscription so
+    # that every subscription counts from zero.
+    return reactivex.defer(
+        lambda _: source.pipe(
+            ops.zip_with_iterable(infinite()),
+            ops.starmap_indexed(_mapper_indexed),  # type: ignore
+        )
     )
 
 
